@@ -573,6 +573,14 @@ class Normalizer:
                             # re-evaluate: only the non-rebound parameters are subject to the single-use rule
                             ok = all(_is_simple_arg(v) or _uses(body, p) <= 1 or p in assigned for p, v in mapping.items())
                         rebinds = sorted(assigned & set(mapping)) if ok else []
+                        if not ok:
+                            # an argument that is not a plain value and is used several times by the helper is evaluated once,
+                            # into the parameter's own name, before the body; so are then all other computed arguments, in
+                            # the order of the call (the order of evaluation stays what it was)
+                            multi = [p_ for p_, v_ in mapping.items() if not _is_simple_arg(v_) and _uses(body, p_) > 1 and p_ not in assigned]
+                            if multi and all(not isinstance(x, (ast.NamedExpr, ast.Yield, ast.YieldFrom, ast.Await)) for v_ in mapping.values() for x in ast.walk(v_)):
+                                rebinds = [p_ for p_, v_ in mapping.items() if not _is_simple_arg(v_) or p_ in assigned]
+                                ok = True
                     if ok:
                         new = copy.deepcopy(body)
                         if rebinds:
@@ -1043,6 +1051,126 @@ class Normalizer:
 
         func.body = block(func.body)
 
+    # -------------------------------------------------------------- loops over a produced sequence
+    def _sink_generator_loops(self, func):
+        """Two rewrites that bring a loop over a computed sequence back to a loop over its source:
+
+        (1) ``if c: X = S1 else: X = S2`` directly followed by ``for t in X: body`` (X used nowhere else) becomes
+            ``if c: for t in S1: body else: for t in S2: body``;
+        (2) ``for (a, b) in ((E1, E2) for v in IT): body`` becomes ``for v in IT: body[a := E1, b := E2]`` when E1, E2 are plain
+            names / constants / attribute chains that the body does not rebind and a, b are not used outside the loop
+            (a generator yields one element per iteration, so the order of evaluation is unchanged; for a list display the
+            elements are plain values)."""
+        changed_any = False
+
+        def name_uses(name):
+            return [n for n in ast.walk(func) if isinstance(n, ast.Name) and n.id == name]
+
+        def last_assign(block, name):
+            """the block (following else-if chains) ends by assigning ``name``: list of (block, stmt) per leaf, or None"""
+            if not block:
+                return None
+            st = block[-1]
+            if isinstance(st, ast.Assign) and len(st.targets) == 1 and isinstance(st.targets[0], ast.Name) and st.targets[0].id == name:
+                return [(block, st)]
+            return None
+
+        def leaves(ifnode, name):
+            out = []
+            a = last_assign(ifnode.body, name)
+            if a is None:
+                return None
+            out += a
+            if len(ifnode.orelse) == 1 and isinstance(ifnode.orelse[0], ast.If):
+                b = leaves(ifnode.orelse[0], name)
+            else:
+                b = last_assign(ifnode.orelse, name)
+            if b is None:
+                return None
+            return out + b
+
+        def simple(e):
+            if isinstance(e, (ast.Name, ast.Constant)):
+                return True
+            if isinstance(e, ast.Attribute):
+                return simple(e.value)
+            return False
+
+        def rewrite_block(block):
+            nonlocal changed_any
+            i = 0
+            while i < len(block):
+                st = block[i]
+                # (1)
+                if isinstance(st, ast.If) and i + 1 < len(block) and isinstance(block[i + 1], ast.For) and isinstance(block[i + 1].iter, ast.Name) and not block[i + 1].orelse:
+                    loop = block[i + 1]
+                    x = loop.iter.id
+                    lv = leaves(st, x)
+                    if lv is not None:
+                        uses = name_uses(x)
+                        n_store = sum(1 for u in uses if isinstance(u.ctx, ast.Store))
+                        n_load = sum(1 for u in uses if isinstance(u.ctx, ast.Load))
+                        if n_store == len(lv) and n_load == 1:
+                            for blk, asg in lv:
+                                lp = copy.deepcopy(loop)
+                                lp.iter = asg.value
+                                blk[blk.index(asg)] = ast.copy_location(lp, asg)
+                            del block[i + 1]
+                            self.report.setdefault("sunk_loops", []).append(f"{func.name}.{x}")
+                            changed_any = True
+                            continue
+                # (2)
+                if isinstance(st, ast.For) and isinstance(st.iter, (ast.GeneratorExp, ast.ListComp)) and len(st.iter.generators) == 1 and not st.orelse:
+                    g = st.iter.generators[0]
+                    tg = st.target
+                    elt = st.iter.elt
+                    t_names = [tg] if isinstance(tg, ast.Name) else (list(tg.elts) if isinstance(tg, ast.Tuple) else None)
+                    e_parts = [elt] if isinstance(tg, ast.Name) else (list(elt.elts) if isinstance(elt, ast.Tuple) else None)
+                    if not g.ifs and not g.is_async and t_names is not None and e_parts is not None and len(t_names) == len(e_parts) \
+                            and all(isinstance(t, ast.Name) for t in t_names) and all(simple(e) for e in e_parts):
+                        tn = [t.id for t in t_names]
+                        gen_vars = {n.id for n in ast.walk(g.target) if isinstance(n, ast.Name)}
+                        body_stores = {n.id for b in st.body for n in ast.walk(b) if isinstance(n, ast.Name) and isinstance(n.ctx, (ast.Store, ast.Del))}
+                        e_names = {n.id for e in e_parts for n in ast.walk(e) if isinstance(n, ast.Name)}
+                        inside = {id(n) for n in ast.walk(st)}
+                        par_ = _parents(func)
+
+                        def rebound_above(n):
+                            """a use inside another loop / comprehension that binds the name itself does not see this loop's value"""
+                            p_ = par_.get(id(n))
+                            while p_ is not None:
+                                if isinstance(p_, ast.For) and p_ is not st and n.id in {x.id for x in ast.walk(p_.target) if isinstance(x, ast.Name)}:
+                                    return True
+                                if isinstance(p_, (ast.ListComp, ast.GeneratorExp, ast.SetComp, ast.DictComp)) and any(
+                                        n.id in {x.id for x in ast.walk(g_.target) if isinstance(x, ast.Name)} for g_ in p_.generators):
+                                    return True
+                                p_ = par_.get(id(p_))
+                            return False
+
+                        outside_use = any(isinstance(n, ast.Name) and n.id in tn and id(n) not in inside and isinstance(n.ctx, ast.Load) and not rebound_above(n) for n in ast.walk(func))
+                        # the generator's variable becomes a local of the function: it must not collide with another one
+                        other_locals = {n.id for n in ast.walk(func) if isinstance(n, ast.Name) and id(n) not in inside} | {a.arg for a in func.args.args}
+                        if not (body_stores & (set(tn) | e_names | gen_vars)) and not outside_use and not (gen_vars & (other_locals - set(tn))) and len(set(tn)) == len(tn):
+                            mapping = {t: e for t, e in zip(tn, e_parts) if not (isinstance(e, ast.Name) and e.id == t)}
+                            sub = _Subst(mapping)
+                            new_body = [sub.visit(copy.deepcopy(b)) for b in st.body]
+                            lp = ast.For(target=g.target, iter=g.iter, body=new_body, orelse=[], type_comment=None)
+                            block[i] = ast.copy_location(lp, st)
+                            ast.fix_missing_locations(block[i])
+                            self.report.setdefault("sunk_loops", []).append(f"{func.name}.<generator>")
+                            changed_any = True
+                            continue
+                for fld in ("body", "orelse", "finalbody"):
+                    sub_b = getattr(st, fld, None)
+                    if isinstance(sub_b, list) and sub_b and isinstance(sub_b[0], ast.stmt):
+                        rewrite_block(sub_b)
+                for h in getattr(st, "handlers", []) or []:
+                    rewrite_block(h.body)
+                i += 1
+
+        rewrite_block(func.body)
+        return changed_any
+
     @staticmethod
     def _renumber(func):
         """After statements were spliced in from elsewhere (helpers, unrolled loops) line numbers no longer follow the
@@ -1104,14 +1232,25 @@ class Normalizer:
                 if any(isinstance(x, ast.NamedExpr) for x in ast.walk(n)):
                     self._dewalrus(n, set(self.pinned_funcs.get(_qual(n, self.par), [])))
                 self._unroll_table_loops(n, set(self.pinned_funcs.get(_qual(n, self.par), [])))
+                if self._sink_generator_loops(n):
+                    self._renumber(n)
             if self.helpers or self.foreign:
-                taken = _local_names(n)
-                n.body = self._inline_stmt_calls(n.body, cls_name, taken)
-                for i, b in enumerate(n.body):
-                    n.body[i] = self._inline_expr_calls(b, cls_name)
+                for _round in range(3):
+                    taken = _local_names(n)
+                    n.body = self._inline_stmt_calls(n.body, cls_name, taken)
+                    for i, b in enumerate(n.body):
+                        n.body[i] = self._inline_expr_calls(b, cls_name)
+                    # f(a, *(b, c)) is f(a, b, c): a helper's result passed on as arguments can then be bound
+                    if not _flatten_starred_displays(n):
+                        break
             pinned_locals = set(self.pinned_funcs.get(q, [])) if q in self.pinned_funcs else set()
             if len(self.report["helpers"]) > n_helpers_before:
+                _drop_self_assignments(n)  # ``x = x`` left by binding a helper's parameter to an argument of the same name
                 self._fold_constants(n)  # what came in with a helper may name module constants
+                if q in self.pinned_funcs:
+                    # ... and loops over a table or a produced sequence
+                    self._unroll_table_loops(n, pinned_locals)
+                    self._sink_generator_loops(n)
                 self._renumber(n)  # line order = execution order, which the alias pass relies on
             if q in self.pinned_funcs:
                 self._propagate_aliases(n, pinned_locals)
@@ -1119,6 +1258,73 @@ class Normalizer:
                 self._renumber(n)
         ast.fix_missing_locations(tree)
         return tree
+
+
+def _flatten_starred_displays(func):
+    """``f(a, *(b, c))`` -> ``f(a, b, c)``; also through one local bound once to a tuple display of plain values and used
+    only there (``rect = (a, b, c, d); f(x, *rect)``).  Returns whether anything changed."""
+    changed = False
+    stores = {}
+    loads = {}
+    for n in ast.walk(func):
+        if isinstance(n, ast.Name):
+            (stores if isinstance(n.ctx, (ast.Store, ast.Del)) else loads).setdefault(n.id, []).append(n)
+    displays = {}
+    for st in ast.walk(func):
+        if isinstance(st, ast.Assign) and len(st.targets) == 1 and isinstance(st.targets[0], ast.Name) and isinstance(st.value, ast.Tuple) \
+                and len(stores.get(st.targets[0].id, [])) == 1 and len(loads.get(st.targets[0].id, [])) == 1 \
+                and all(isinstance(e, (ast.Name, ast.Constant)) for e in st.value.elts):
+            elt_names = {e.id for e in st.value.elts if isinstance(e, ast.Name)}
+            if all(len(stores.get(x, [])) <= 1 for x in elt_names):
+                displays[st.targets[0].id] = st
+    used = set()
+    for c in ast.walk(func):
+        if isinstance(c, ast.Call) and any(isinstance(a, ast.Starred) for a in c.args):
+            new = []
+            for a in c.args:
+                v = a.value if isinstance(a, ast.Starred) else None
+                if isinstance(v, ast.Name) and v.id in displays:
+                    used.add(v.id)
+                    v = displays[v.id].value
+                if isinstance(v, (ast.Tuple, ast.List)) and not any(isinstance(x, ast.Starred) for x in v.elts):
+                    new.extend(copy.deepcopy(x) for x in v.elts)
+                    changed = True
+                else:
+                    new.append(a)
+            c.args = new
+    if used:
+        def clean(block):
+            out = [st for st in block if not (isinstance(st, ast.Assign) and len(st.targets) == 1 and isinstance(st.targets[0], ast.Name) and st.targets[0].id in used
+                                              and displays.get(st.targets[0].id) is st)]
+            for st in out:
+                for fld in ("body", "orelse", "finalbody"):
+                    sub = getattr(st, fld, None)
+                    if isinstance(sub, list) and sub and isinstance(sub[0], ast.stmt):
+                        setattr(st, fld, clean(sub) or ([ast.copy_location(ast.Pass(), st)] if fld == "body" else []))
+                for h in getattr(st, "handlers", []) or []:
+                    h.body = clean(h.body) or [ast.copy_location(ast.Pass(), h)]
+            return out
+        func.body = clean(func.body) or [ast.Pass()]
+    return changed
+
+
+def _drop_self_assignments(func):
+    def clean(block):
+        keep = []
+        for st in block:
+            if isinstance(st, ast.Assign) and len(st.targets) == 1 and isinstance(st.targets[0], ast.Name) and isinstance(st.value, ast.Name) and st.value.id == st.targets[0].id:
+                continue
+            for fld in ("body", "orelse", "finalbody"):
+                sub = getattr(st, fld, None)
+                if isinstance(sub, list) and sub and isinstance(sub[0], ast.stmt):
+                    new = clean(sub)
+                    setattr(st, fld, new if new or fld != "body" else [ast.copy_location(ast.Pass(), st)])
+            for h in getattr(st, "handlers", []) or []:
+                h.body = clean(h.body) or [ast.copy_location(ast.Pass(), h)]
+            keep.append(st)
+        return keep
+
+    func.body = clean(func.body) or [ast.Pass()]
 
 
 def new_module_constants(tree, rel, base_env):
